@@ -145,6 +145,10 @@ func (c *Ctx) globalFacts(g *ssa.Global, ref string) {
 	case *ssa.Call:
 		if callee := v.Call.StaticCallee(); callee != nil {
 			k := funcKey(callee)
+			if k == "regexp.MustCompile" {
+				id := 70000 + w.globalIDs["glob$"+mangle(g.Pkg.Pkg.Path())+"."+g.Name()]
+				add(eq(cell(), fmt.Sprint(id)))
+			}
 			if k == "errors.New" || k == "fmt.Errorf" {
 				id := 50000 + w.globalIDs["glob$"+mangle(g.Pkg.Pkg.Path())+"."+g.Name()]
 				add(eq(cell(), fmt.Sprintf("(mk-iface %s %d)", c.typeID(types.NewPointer(types.Typ[types.Invalid])), id)))
